@@ -124,6 +124,9 @@ struct Machine {
     sp: Spec,
     inits: Vec<RK>,
     pool: Vec<RK>,
+    /// elements every reached state is compared with: the pool, its negatives and non-trivial
+    /// coset representatives (shifted by 4-torsion through the hook)
+    eqpool: Vec<RK>,
     max_depth: u8,
     ctx: usize,
 }
@@ -207,9 +210,10 @@ impl Model for Machine {
         Some(match r {
             Err(e) => fail(format!("panic: {}", e)),
             Ok((q, m)) => {
-                for k in pool {
-                    if (q == k.real) != ris::equal(&m, &k.pt) {
-                        return Some(fail(format!("== {} gives {} but model says {}", k.name, q == k.real, ris::equal(&m, &k.pt))));
+                for k in &self.eqpool {
+                    let want = ris::equal(&m, &k.pt);
+                    if (q == k.real) != want || (k.real == q) != want {
+                        return Some(fail(format!("== {} gives {} / {} but model says {}", k.name, q == k.real, k.real == q, want)));
                     }
                 }
                 if let Op::Coset(_) = a {
@@ -477,7 +481,17 @@ pub fn run(ctx: &Ctx) {
             }
         }
     }
-    let m = Machine { sp: spec(), inits, pool, max_depth: depth, ctx: ctx as *const Ctx as usize };
+    let mut eqpool: Vec<RK> = Vec::new();
+    for k in &pool {
+        eqpool.push(k.clone());
+        eqpool.push(RK { name: format!("-({})", k.name), pt: k.pt.neg(), real: -&k.real });
+        for t in [1usize, 2, 3] {
+            let shifted = &hook::ristretto_inner(&k.real) + &curve25519_dalek::constants::EIGHT_TORSION[2 * t];
+            eqpool.push(RK { name: format!("{}+T{}", k.name, 2 * t), pt: k.pt.add(&ed::torsion()[2 * t]), real: hook::ristretto_from_inner(&shifted) });
+        }
+    }
+    ctx.bound("machine_equality_pool", json!(eqpool.len()));
+    let m = Machine { sp: spec(), inits, pool, eqpool, max_depth: depth, ctx: ctx as *const Ctx as usize };
     let o = crate::bfs::explore(&m, depth as usize, |s| s.bad.clone(), 8);
     crate::bfs::finish(ctx, "ris.machine", &o, depth as usize);
     ctx.sample_tag("machine", json!({"depth": depth, "note": "BFS over raw representatives incl. explicit 4-torsion coset shifts; oracle = RFC 9496 encode of the model coset, coset equality, [l]P = 0, decode(encode)"}));
